@@ -533,19 +533,25 @@ func (w *World) addPeer(i int, pc peerCfg) {
 	go r.writeLoop()
 	w.handle(peer.TorAddPeer{Peer: p})
 	if pc.Ext && !pc.NoExt0 {
-		m := rc.Msg{Kind: rc.Ext0, M: map[string]uint8{}, HasM: true, ReqQ: uint32(pc.ReqQ), MetadataSize: pc.MetadataSize}
-		if pc.DontHave != 0 {
-			m.M["lt_donthave"] = pc.DontHave
-		}
-		if pc.Pex != 0 {
-			m.M["ut_pex"] = pc.Pex
-		}
-		if pc.Metadata != 0 {
-			m.M["ut_metadata"] = pc.Metadata
-		}
-		r.send(m)
-		r.sentExt0 = true
+		r.sendExt0(pc.MetadataSize)
 	}
+}
+
+// sendExt0 sends the remote's extended handshake, announcing the given metadata size.
+func (r *remote) sendExt0(metadataSize uint32) {
+	pc := r.cfg
+	m := rc.Msg{Kind: rc.Ext0, M: map[string]uint8{}, HasM: true, ReqQ: uint32(pc.ReqQ), MetadataSize: metadataSize}
+	if pc.DontHave != 0 {
+		m.M["lt_donthave"] = pc.DontHave
+	}
+	if pc.Pex != 0 {
+		m.M["ut_pex"] = pc.Pex
+	}
+	if pc.Metadata != 0 {
+		m.M["ut_metadata"] = pc.Metadata
+	}
+	r.send(m)
+	r.sentExt0 = true
 }
 
 // --- stepping a peer arm by arm (profile worldsel) ------------------------------
@@ -1423,6 +1429,15 @@ func (w *World) apply(tr string) bool {
 			r.send(rc.Msg{Kind: rc.ExtMetadata, ID: protocol.ExtMetadata, MsgType: 1, MPiece: pc, TotalSize: uint32(len(w.info)), HasTotal: true, Data: append([]byte{}, w.info[off:end]...)})
 		}
 		r.metaReqs = nil
+	case "vote": // vote:<remote>:<size|true>  the remote's (first) extended handshake announces a metadata size
+		if r.closed || r.sentExt0 || !r.cfg.Ext {
+			return false
+		}
+		ms := uint32(len(w.info))
+		if f[2] != "true" {
+			ms = uint32(arg(2))
+		}
+		r.sendExt0(ms)
 	case "mdata": // mdata:<remote>:<index>:<content>:<total>:<length>   unsolicited / hostile metadata block
 		if r.closed {
 			return false
@@ -1466,10 +1481,13 @@ func (w *World) apply(tr string) bool {
 		}
 		total := uint32(size)
 		switch f[4] {
+		case "true":
 		case "0":
 			total = 0
 		case "other":
 			total = uint32(size) + 1
+		default: // an explicit number
+			total = uint32(arg(4))
 		}
 		r.send(rc.Msg{Kind: rc.ExtMetadata, ID: protocol.ExtMetadata, MsgType: 1, MPiece: idx, TotalSize: total, HasTotal: total != 0, Data: data})
 		if f[3] != "true" || f[5] != "tail" {
